@@ -225,6 +225,8 @@ pub fn gen(r: &mut Rng, _tier: &str, _i: usize, stats: &mut BTreeMap<String, u64
         pool.push(render(&gen_ref(r, vs, 0, nodiff_pct)));
     }
     let flat = r.chance(1, 2);
+    // one flat pool in four holds unfolded expressions (parse_wo_compile)
+    let wo_pool = flat && r.chance(1, 4);
     let nsteps = 1 + r.below(if profile == "diff" || profile == "subs" { 3 } else { 5 });
     let mut steps = vec![];
     let all_bin = ["+", "-", "*", "/", "^", "min", "max", "atan2"];
@@ -276,7 +278,7 @@ pub fn gen(r: &mut Rng, _tier: &str, _i: usize, stats: &mut BTreeMap<String, u64
         *stats.entry(format!("step_{}", kind)).or_insert(0) += 1;
         steps.push(step);
     }
-    format!("histf\t{}\t{}\t{}\t{}", pool.iter().map(|s| hex(s)).collect::<Vec<_>>().join(";"), if flat { "F" } else { "D" }, steps.join("|"), r.next() % 1000000)
+    format!("histf\t{}\t{}\t{}\t{}", pool.iter().map(|s| hex(s)).collect::<Vec<_>>().join(";"), if flat { if wo_pool { "W" } else { "F" } } else { "D" }, steps.join("|"), r.next() % 1000000)
 }
 
 // a tiny parser for the rendered reference syntax: Num | var | name(expr) | (expr op expr) | (-num)
@@ -405,14 +407,15 @@ fn tame(r: &R, env: &BTreeMap<String, f64>) -> bool {
 pub fn run(f: &[&str]) -> String {
     let texts: Vec<String> = f[0].split(';').map(unhex).collect();
     let texts: Vec<&'static str> = texts.into_iter().map(|s| &*Box::leak(s.into_boxed_str())).collect();
-    let flat = f[1] == "F";
+    let flat = f[1] == "F" || f[1] == "W";
+    let wo = f[1] == "W";
     let hist: Vec<String> = if f[2] == "-" { vec![] } else { f[2].split('|').map(|s| s.to_string()).collect() };
     let seed: u64 = f[3].parse().unwrap_or(1);
     crate::catch(move || {
         let mut rng = Rng::new(seed);
         let mut pool: Vec<Entry<'static>> = vec![];
         for tx in &texts {
-            let p = if flat { F::parse(tx).map(P::Fl) } else { D::parse(tx).map(P::De) };
+            let p = if wo { F::parse_wo_compile(tx).map(P::Fl) } else if flat { F::parse(tx).map(P::Fl) } else { D::parse(tx).map(P::De) };
             let chars: Vec<char> = tx.chars().collect();
             let mut pos = 0;
             let reference = parse_ref(&chars, &mut pos);
